@@ -185,8 +185,9 @@ def gating_oracle(family, seed, domains, n_steps, steps=None):
     b = D.build(family, seed, domains)
     rng = random.Random((seed * 7919 + 13) ^ 0x5bd1)
     if steps is None:
-        steps = D.stimulus(b, rng, n_steps, max_clk=1)
+        steps = D.stimulus(b, rng, n_steps, max_clk=3)
     inst = D.Instance(b)
+    bm = D.build(family, seed, domains); inst_m = D.Instance(bm)      # the same design driven with ONE clk(n) call per step (n up to 3)
     stats = {'edges': 0, 'gated_edges': 0, 'enabled_gated_domains': 0, 'domains': len(domains_of(b.hw))}
     for k, (pokes, n) in enumerate(steps):
         inst.poke(pokes)
@@ -246,6 +247,24 @@ def gating_oracle(family, seed, domains, n_steps, steps=None):
                 if bv.get(w) != post_v[w]:
                     return fail('an output of a domain depends on the gating of the OTHER domains', domain=name, wire=w,
                                 here=post_v[w], others_flipped=bv.get(w))
+        # the enables are looked at before EVERY edge also inside a multi-cycle call: clk(n) on a second instance of the design must
+        # leave it exactly where the n single edges (each checked above against its own pre-edge enables) left the first
+        inst_m.poke(pokes)
+        prm = inst_m.clk(n)
+        if n >= 1:
+            mv, ms = snapshot(bm.hw)
+            sv, ss = snapshot(b.hw)
+            def failm(what, **kw):
+                return dict(what=what, step=k, pokes=pokes, ncycles=n, domains={m[0]: m[3] for m in domain_table(b.hw)}, **kw), steps, stats
+            if prm: return failm('bookkeeping after clk(%d): ' % n + '; '.join(prm))
+            for l in ss:
+                if ms.get(l) != ss[l]:
+                    return failm('clk(n) in one call leaves a sequential block in a different state than n single edges, each gated by the enable read before it',
+                                 leaf=l, single_edges=ss[l], one_call=ms.get(l))
+            for w in sv:
+                if mv.get(w) != sv[w]:
+                    return failm('clk(n) in one call leaves a wire at a different value than n single edges, each gated by the enable read before it',
+                                 wire=w, single_edges=sv[w], one_call=mv.get(w))
     return None, steps, stats
 
 
